@@ -165,7 +165,7 @@ func (t *tracker) ack(logs []*raft.Log) {
 // hostileWord returns an 8-byte word chosen by sel.
 func hostileWord(sel byte, idx uint64, i int) []byte {
 	w := make([]byte, 8)
-	switch sel % 9 {
+	switch sel % 10 {
 	case 0: // zeros
 	case 1: // entry frame header with len 0
 		w[0] = segment.FrameEntry
@@ -184,6 +184,8 @@ func hostileWord(sel byte, idx uint64, i int) []byte {
 	case 7: // index frame header claiming just under 4 GiB
 		w[0] = segment.FrameIndex
 		w[4], w[5], w[6], w[7] = 0xf8, 0xff, 0xff, 0xff
+	case 9: // commit frame header whose CRC field is zero: "commits" nothing if it follows a commit
+		w[0] = segment.FrameCommit
 	case 8: // entry frame header claiming MaxEntrySize+8
 		w[0] = segment.FrameEntry
 		w[4], w[7] = 8, 0x04
@@ -520,6 +522,33 @@ func (t *tracker) resolveStable(w *wal.WAL, v *verdicts, where string) {
 	}
 }
 
+// checkTailFormat is C09 for the unsealed tail of a recovered (and possibly written-to) directory:
+// walking the file from its header with the README decoder, every CRC checked, must yield at least
+// the entries the WAL itself reports for that segment - stale bytes may follow the last commit, but
+// none may sit inside the committed data.
+func checkTailFormat(fs *simfs.FS, last uint64, v *verdicts, where string) {
+	st, ok := fs.MetaState()
+	if !ok || len(st.Segments) == 0 {
+		return
+	}
+	si := st.Segments[len(st.Segments)-1]
+	if !si.SealTime.IsZero() || last < si.BaseIndex || last == 0 {
+		return
+	}
+	b, has := fs.ReadFile(segment.FileName(si))
+	if !has {
+		return
+	}
+	_, groups, committed, derr := refmodel.DecodeSegment(b)
+	n := 0
+	for _, g := range groups {
+		n += len(g.Entries)
+	}
+	if need := int(last-si.BaseIndex) + 1; n < need {
+		v.add("C09", "tail-not-decodable", "%s: the tail %s holds entries %d..%d according to the WAL (%d entries) but a decoder following the README recovers only %d up to offset %d and then stops: %v", where, segment.FileName(si), si.BaseIndex, last, need, n, committed, derr)
+	}
+}
+
 // checkDir is the C13 verdict: directory == files of committed segments; no reused names.
 func checkDir(fs *simfs.FS, v *verdicts, where string) {
 	st, ok := fs.MetaState()
@@ -739,6 +768,9 @@ func usability(e *runEnv, t *tracker, v *verdicts, where string) {
 	// the directory and the files the script's truncations, rotations and appends left behind
 	// are held to the same format/identity rules as the first recovered image
 	checkDir(e.fs, v, where+" after usability+power loss")
+	if last, err := e.w.LastIndex(); err == nil {
+		checkTailFormat(e.fs, last, v, where+" after usability+power loss")
+	}
 }
 
 var errStop = errors.New("stop")
